@@ -365,6 +365,11 @@ Proof.
     destruct (upd_path p0 path v); [|apply TOK_raise].
     apply TOK_ret; [exact I1|]. unfold SVP. cbn [bstack with_vals with_regs]. exact (SV_step _ _ _ _ _ V I I1 E1).
   - (* SBGetIdx *) destruct (dget (bvals b) nm); [|apply TOK_raise]. destruct (get_path p0 path); [apply name_store_TOK; assumption|apply TOK_raise].
+  - (* SBArrSet *) destruct (dget (bvals b) nm) as [v0|]; [|apply TOK_raise]. destruct v0; try apply TOK_raise. destruct row; [apply TOK_raise|].
+    eapply TOK_bind; [apply TOK_lift; [apply OK_arr_set|exact I]|]. intros l' s1 sg1 I1 E1 _.
+    eapply TOK_bind; [apply TOK_lift; [apply OK_name_val|exact I1]|]. intros v s2 sg2 I2 E2 _.
+    apply TOK_ret; [exact I2|]. unfold SVP. cbn [bstack with_vals with_regs].
+    exact (SV_step _ _ _ _ _ (SV_step _ _ _ _ _ V I I1 E1) I1 I2 E2).
   - (* SOIf *)
     cbn [noign] in N. apply andb_prop in N. destruct N as [N Nel]. apply andb_prop in N. destruct N as [Nt Nes].
     eapply TOK_bind; [apply bnot_v_TOK; exact I|]. intros ic s1 sg1 I1 E1 _.
